@@ -64,6 +64,7 @@ func (r *Registry) GetTag(ctx context.Context, repoName string, tagName string) 
 	if err != nil {
 		return nil, err
 	}
+	verifYield("GetTag:resolved")
 	return r.GetManifest(ctx, repoName, desc.Digest)
 }
 
